@@ -226,7 +226,7 @@ func (l *Lexer) string(quoteChar byte) (Token, error) {
 	if l.atEnd() {
 		// the first byte of the string, or the quote when nothing follows it
 		pos := l.tokenStart + 1
-		if pos >= len(l.src) || l.src[pos] == '\n' {
+		if pos >= len(l.src) || l.src[pos] == '\n' || l.src[pos] == '\r' {
 			pos = l.tokenStart
 		}
 		return l.errorToken(), l.error(pos, "unexpected EOF while reading string")
